@@ -45,7 +45,6 @@ CLAUSES = [
     ("cl_late_qname", "late-qname-data-undeclared-prefix"),
     ("cl_clark", "datatype-clark-text-rewritten"),
     ("cl_nil", "nil-kept-with-content"),
-    ("cl_cr", "cr-in-text-native"),
 ]
 
 
@@ -285,7 +284,7 @@ WITNESSES = [
      {"user": [], "events": [["start", [None, "r"]], ["attr", [None, "x"], {"t": "{%s}int" % XS}], ["end", [None, "r"]]]}),
     ("non-xml-char-not-rejected",
      {"user": [], "events": [["start", [None, "r"]], ["data", {"t": "a\x01b"}], ["end", [None, "r"]]]}),
-    ("cr-in-text-native",
+    ("fixed:cr-in-text-native",
      {"user": [], "events": [["start", [None, "r"]], ["data", {"t": "a\rb"}], ["end", [None, "r"]]]}),
     ("nil-kept-with-content",
      {"user": [], "events": [["start", [None, "r"]], ["attr", [XSI, "nil"], {"t": "true"}], ["data", None], ["start", [None, "c"]],
